@@ -164,6 +164,26 @@ def r3_rebuild_from_nothing(ctx):
         ok,
         "the build may keep or extend a previous table: methods removed since the last build stay registered",
     )
+    # (a') a rebuild re-publishes every part of the generated entry point it publishes at all
+    parts = []
+    for st in all_stmts(build.node):
+        if isinstance(st, ast.Assign):
+            for t in st.targets:
+                if isinstance(t, ast.Attribute) and is_self_attr(t.value, "dispatch", selfname=rv):
+                    parts.append((st, t.attr))
+        elif isinstance(st, ast.Expr) and isinstance(st.value, ast.Call) and isinstance(st.value.func, ast.Attribute) and st.value.func.attr == "update":
+            b = st.value.func.value
+            if isinstance(b, ast.Attribute) and is_self_attr(b.value, "dispatch", selfname=rv):
+                parts.append((st, b.attr + ".update"))
+    ctx.require(len(parts) >= 3, "the build no longer publishes the generated entry point part by part")
+    for st, what in parts:
+        ctx.ob(
+            f"{build.key}:republish:{what}",
+            build.loc(st),
+            f"every build re-publishes `dispatch.{what}` (it runs on every normal path of the build, not only the first time)",
+            cfg.must_reach(cfg.entry, [cfg.node_of(st)]),
+            f"`{short(st, 60)}` is skipped on some builds: after a rebuild the live entry point runs new code with a stale `{what}` (e.g. a helper the new code needs was never injected)",
+        )
     # (b) the argument analysis is a fresh object before methods are added to it
     an = A.argument_analyzer(repo)
     adders = []
@@ -232,7 +252,10 @@ def r3_rebuild_from_nothing(ctx):
 
 
 def r2(ctx):
+    from .c16 import r3_linkback
+
     r5_every_mutator_rebuilds(ctx)
+    r3_linkback(ctx)
 
 
 RULES = [
